@@ -93,7 +93,7 @@ const FIELD_IDENTS: &[&str] = &[
     // identifier shapes outside the "one reading" domain (digits, capital runs, no underscore): the reference
     // for these is the third-party convert_case 0.6 `Case::Camel` that deserr documents it delegates to
     "sha256sum", "userID", "md5SumHex", "x2", "a1_b2", "fooBar", "HTTPCode", "ipv4addr", "utf8string", "port2", "is2nd",
-    "zeta", "eta", "theta", "iota", "kappa", "lambda", "omega",
+    "zeta", "eta", "theta", "iota", "kappa", "lambda", "omega", "line_len", "max_value", "Text_Value", "itemCount", "is_ok",
 ];
 const VARIANT_IDENTS: &[&str] =
     &["Alpha", "Beta", "GammaDelta", "Unit", "Circle", "BigRedThing", "A", "Ab", "Rect", "Empty", "SomeOther", "Label", "HTTPGet", "IOError", "Vec2D", "V2"];
@@ -232,7 +232,12 @@ fn gen_fields_n(r: &mut R, pool: &[PoolTy], pinned: bool, n: usize, avoid_key: O
     let mut tries = 0;
     while fields.len() < n && tries < 400 {
         tries += 1;
-        let ident = r.pick(FIELD_IDENTS).to_string();
+        // prefer identifiers that camelCase / lowercase actually change (an attribute that leaks or is
+        // dropped is invisible on identifiers that are fixed points of both)
+        let mut ident = r.pick(FIELD_IDENTS).to_string();
+        if camel(&ident) == ident && ident.to_lowercase() == ident && r.chance(0.6) {
+            ident = r.pick(FIELD_IDENTS).to_string();
+        }
         if fields.iter().any(|f| f.ident == ident) {
             continue;
         }
